@@ -31,6 +31,8 @@ func c07(c *Check) {
 		}
 		c.Req(ok, "C07/processing-time-on-every-accept", funcName(upd), upd.Pos(), fmt.Sprint(len(paths), " success path(s)"), "a success path of the tendermint update does not record the processing time exactly once: a consensus state can be replaced while the old processing time keeps counting (proofs honoured before the delay since the new state was accepted)")
 	}
+	c.Rule("C07/nothing-before-validity", "tendermint CheckHeaderAndUpdateState prunes and updates only after checkValidity accepted the header", 1)
+	nothingBeforeValidity(c, "C07/nothing-before-validity", tmT+"ClientState.CheckHeaderAndUpdateState")
 	c.Rule("C07/keeper-gate", "client keeper UpdateClient: a non-active (expired/unknown) client rejects before CheckHeaderAndUpdateState (shared with C18/update-client)", 3)
 	um := Macros{"CS": "client/keeper.(Keeper).GetClientState($0, $1, $2)", "ST": "client/keeper.(Keeper).ClientStore($0, $1, $2)",
 		"STATUS": "iface:xibc/exported.ClientState.Status({CS}#0, $1, {ST}, $0.cdc)"}
